@@ -174,7 +174,8 @@ pub struct Scripted<T> {
     ri: usize,
     wi: usize,
     pi: usize,
-    pended: bool,
+    r_pended: bool,
+    w_pended: bool,
     pub read_total: Arc<AtomicUsize>,
     pub write_total: Arc<AtomicUsize>,
     pub fail_read_at: Option<usize>,
@@ -190,7 +191,8 @@ impl<T> Scripted<T> {
             ri: 0,
             wi: 0,
             pi: 0,
-            pended: false,
+            r_pended: false,
+            w_pended: false,
             read_total: Default::default(),
             write_total: Default::default(),
             fail_read_at: None,
@@ -198,18 +200,21 @@ impl<T> Scripted<T> {
             shutdown_seen: Default::default(),
         }
     }
-    fn maybe_pend(&mut self, cx: &mut Context<'_>) -> bool {
+    /// Each direction keeps its own "already pended once" flag: the read and the write half of one
+    /// stream are polled from the same task (copy_bidi) and must not consume each other's turn.
+    fn maybe_pend(&mut self, cx: &mut Context<'_>, write: bool) -> bool {
         if self.sched.pend.is_empty() {
             return false;
         }
-        if self.pended {
-            self.pended = false;
+        let flag = if write { &mut self.w_pended } else { &mut self.r_pended };
+        if *flag {
+            *flag = false;
             return false;
         }
         let p = self.sched.pend[self.pi % self.sched.pend.len()];
         self.pi += 1;
         if p {
-            self.pended = true;
+            *flag = true;
             cx.waker().wake_by_ref();
             true
         } else {
@@ -228,7 +233,7 @@ impl<T: AsyncRead + Unpin> AsyncRead for Scripted<T> {
                 )));
             }
         }
-        if self.maybe_pend(cx) {
+        if self.maybe_pend(cx, false) {
             return Poll::Pending;
         }
         let mut lim = if self.sched.reads.is_empty() {
@@ -270,7 +275,7 @@ impl<T: AsyncWrite + Unpin> AsyncWrite for Scripted<T> {
                 )));
             }
         }
-        if self.maybe_pend(cx) {
+        if self.maybe_pend(cx, true) {
             return Poll::Pending;
         }
         let lim = if self.sched.writes.is_empty() {
